@@ -99,46 +99,48 @@ def all_cells(form):
 # ------------------------------------------------------------------ known shapes (DESIGN 7.2 F1-F4)
 
 
-def shapes(form) -> dict:
-    """which known defect shapes the *input* has: {class: [witness strings]}"""
-    decl = declared_prefixes(form)
-    out = {}
-    f1 = [h for h in choice_extra_headers(form) if not is_ncname(h)]
-    if f1:
-        out["F1"] = f1
-    f2 = [x for (_, _, x) in custom_names(form) if not is_qname(x)]
+TYPO_LIT = "\u00c0-\u00d6]"   # the four characters `À-Ö]`: a literal alternative of pyxform's NameStartChar regex (typo for a class)
+
+
+def user_names(form):
+    """every user string that becomes an XML name"""
+    out = [x for (_, _, x) in custom_names(form)] + element_names(form) + choice_extra_headers(form)
     ns = settings_row(form).get("namespaces") or ""
     for tok in ns.split():
         p = tok.split("=")
-        if len(p) == 2 and p[0] != "" and not is_ncname(p[0]):
-            f2.append("xmlns:" + p[0])
-    if f2:
-        out["F2"] = f2
-    f2b = [tok for tok in ns.split() if _bad_decl(tok)]
-    if f2b:
-        out["F2b"] = f2b
-    f3 = []
-    for _, _, x in custom_names(form):
-        if is_qname(x) and ":" in x and x.split(":")[0] not in decl and not _declared_at_root(form, x):
-            f3.append(x)
-    for n in element_names(form):
-        if is_qname(n) and ":" in n and n.split(":")[0] not in decl:
-            f3.append(n)
-    if f3:
-        out["F3"] = f3
-    f4 = [v for v in all_cells(form) if isinstance(v, str) and RE_NONXML.search(v)]
-    if f4:
-        out["F4"] = f4
+        if len(p) == 2 and p[0]:
+            out.append(p[0])
     return out
 
 
-def _bad_decl(tok):
-    """namespaces token that yields an illegal declaration: empty URI, or the prefixes xml / xmlns"""
+def shapes(form) -> dict:
+    """which known defect shapes the *input* has: {class: [witness strings]}.
+    F1-F4/F2b are repaired (validate_xml_document); what is left is F5: a name containing the
+    literal `À-Ö]`, which the NCName regex accepts because of a typo (`\\xc0-\\xd6]` without `[`)."""
+    out = {}
+    f5 = [n for n in user_names(form) if TYPO_LIT in n]
+    if f5:
+        out["F5"] = f5
+    f3x = [n for n in element_names(form) if n.startswith("xmlns:")]
+    if f3x:
+        out["F3x"] = f3x
+    ns = settings_row(form).get("namespaces") or ""
+    f2b = [t for t in ns.split() if _reserved_uri_decl(t)]
+    if f2b:
+        out["F2b"] = f2b
+    return out
+
+
+RESERVED_NS_URIS = ("http://www.w3.org/XML/1998/namespace", "http://www.w3.org/2000/xmlns/")
+
+
+def _reserved_uri_decl(tok):
+    """what is left of F2b after the repair: a `namespaces` token that binds an ordinary prefix to one
+    of the two reserved namespace names (empty URIs and the prefixes xml/xmlns are rejected now)"""
     p = tok.split("=")
-    if len(p) != 2 or p[0] == "" or p[0] in NSMAP_PREFIXES - {"xml", "xmlns"}:
+    if len(p) != 2 or p[0] in ("", "xml", "xmlns") or p[0] in NSMAP_PREFIXES:
         return False
-    uri = p[1].replace('"', "").replace("'", "")
-    return uri == "" or p[0] in ("xml", "xmlns") or uri in ("http://www.w3.org/XML/1998/namespace", "http://www.w3.org/2000/xmlns/")
+    return p[1].replace('"', "").replace("'", "") in RESERVED_NS_URIS
 
 
 def _declared_at_root(form, x):
@@ -151,68 +153,33 @@ def _declared_at_root(form, x):
 def sanitise(form, classes) -> dict:
     """the form with every instance of the given shape classes removed"""
     f = copy.deepcopy(form)
-    decl = declared_prefixes(form)
-    if "F4" in classes:
-        for s in ("survey", "choices", "settings", "entities"):
-            for r in f.get(s) or []:
-                for k, v in list(r.items()):
-                    if isinstance(v, str):
-                        r[k] = RE_NONXML.sub("", v) or "x"
-    if "F1" in classes:
-        bad = [h for h in choice_extra_headers(f) if not is_ncname(h)]
-        for r in f.get("choices") or []:
-            for h in bad:
-                r.pop(h, None)
-    def drop_custom(pred):
-        for r in f.get("survey", []):
-            for k in list(r):
-                for pre in CUSTOM_COLS:
-                    if k.startswith(pre) and pred(k[len(pre):]):
-                        del r[k]
-        st = settings_row(f)
-        for k in list(st):
-            if k.startswith("attribute::") and pred(k[len("attribute::"):]):
-                del st[k]
-    if "F2" in classes:
-        drop_custom(lambda x: not is_qname(x))
-        st = settings_row(f)
-        if st.get("namespaces"):
-            toks = []
-            for tok in st["namespaces"].split():
-                p = tok.split("=")
-                if len(p) == 2 and p[0] != "" and not is_ncname(p[0]):
-                    continue
-                toks.append(tok)
-            st["namespaces"] = " ".join(toks)
-            if not st["namespaces"]:
-                del st["namespaces"]
     if "F2b" in classes:
         st = settings_row(f)
         if st.get("namespaces"):
-            st["namespaces"] = " ".join(t for t in st["namespaces"].split() if not _bad_decl(t))
+            st["namespaces"] = " ".join(t for t in st["namespaces"].split() if not _reserved_uri_decl(t))
             if not st["namespaces"]:
                 del st["namespaces"]
-    if "F3" in classes:
-        drop_custom(lambda x: is_qname(x) and ":" in x and x.split(":")[0] not in decl and not _declared_at_root(form, x))
-        ren = {}
-        for n in element_names(f):
-            if is_qname(n) and ":" in n and n.split(":")[0] not in decl:
-                ren[n] = n.replace(":", "_") + "_s"
-        if ren:
-            def fix(v):
-                if not isinstance(v, str):
-                    return v
-                for a, b in ren.items():
-                    v = v.replace("${" + a + "}", "${" + b + "}")
-                return v
-            for r in f.get("survey", []):
-                for k in list(r):
-                    r[k] = fix(r[k])
-                if r.get("name") in ren:
-                    r["name"] = ren[r["name"]]
-            st = settings_row(f)
-            if st.get("name") in ren:
-                st["name"] = ren[st["name"]]
+    if "F3x" in classes:
+        ren = {n: "xmlns_" + n[6:] for n in element_names(f) if n.startswith("xmlns:")}
+        for r in f.get("survey", []):
+            for k in list(r):
+                if isinstance(r[k], str):
+                    for a, b in ren.items():
+                        r[k] = r[k].replace("${" + a + "}", "${" + b + "}")
+            if r.get("name") in ren:
+                r["name"] = ren[r["name"]]
+        st = settings_row(f)
+        if st.get("name") in ren:
+            st["name"] = ren[st["name"]]
+    if "F5" in classes:
+        def fix(v):
+            return v.replace(TYPO_LIT, "AO") if isinstance(v, str) else v
+        for s in ("survey", "choices", "settings"):
+            rows = []
+            for r in f.get(s) or []:
+                rows.append({fix(k): fix(v) for k, v in r.items()})
+            if s in f:
+                f[s] = rows
     return f
 
 
@@ -226,6 +193,52 @@ NS_POOL = [
 NS_NOISE = ["novalue", "=x", "a=b=c", "h=http://other", "odk=urn:mine", "==", "jr=", "=", "h=''"]
 FORM_IDS = ["my_form", "f1", "id-2", "a<b", 'q"id', "x&y", "it's", "é中", "a b", "F.1:2", "<!--", "]]>", "&amp;"]
 LANG_SETS = [[], [], ["en"], ["en", "fr"], ["English (en)", "fr"], ["default", "sw"]]
+
+
+ENTITY_ATOMS = [
+    "&nbsp;", "&copy;", "&eacute;", "&mdash;", "&AMP;", "&Lt;", "&x;", "&_a1;", "&a.b;", "&a-b;", "&a:b;", "&é;",
+    "&#0;", "&#1;", "&#8;", "&#11;", "&#31;", "&#x0;", "&#xB;", "&#x1f;", "&#xD800;", "&#xFFFE;", "&#xFFFF;", "&#1114112;",
+    "&#55296;", "&#65;", "&#x41;", "&#x10FFFF;", "&#9;", "&#10;", "&#13;", "&#38;", "&#60;",
+    "&amp;", "&lt;", "&gt;", "&quot;", "&apos;", "&amp;amp;", "&amp;nbsp;",
+    "&#;", "&#x;", "&;", "& ;", "&#12", "&amp", "&&amp;;", "&#xZZ;", "&#-1;", "&# 1;", "&1;", "&#X41;", "%nbsp;",
+]
+TEXT_COLS = ("label", "hint", "constraint_message", "required_message", "guidance_hint")
+
+
+def entity_atom(rng):
+    r = rng.random()
+    if r < 0.6:
+        return rng.choice(ENTITY_ATOMS)
+    if r < 0.75:
+        return "&" + "".join(rng.choice("abcXYZ_09é.-") for _ in range(rng.randint(1, 6))) + ";"
+    if r < 0.9:
+        return "&#" + str(rng.choice([0, 1, 8, 9, 11, 12, 14, 31, 32, 127, 128, 159, 55295, 55296, 57343, 57344, 65533, 65534, 65535, 65536, 1114111, 1114112, rng.randint(0, 70000)])) + ";"
+    return "&#x" + format(rng.choice([0, 1, 0xB, 0x1F, 0x20, 0x7F, 0xD7FF, 0xD800, 0xDFFF, 0xE000, 0xFFFD, 0xFFFE, 0xFFFF, 0x10000, 0x10FFFF, 0x110000, rng.randint(0, 0x11000)]), rng.choice(["x", "X"])) + ";"
+
+
+def inject_entities(rng, form, p=0.2):
+    """entity-like sequences (named with arbitrary names, decimal/hex references incl. illegal code
+    points, malformed ones) into plain text cells: cell text is data, `&` must always come out escaped"""
+    def mix(v):
+        a = entity_atom(rng)
+        r = rng.random()
+        return a + v if r < 0.3 else v + a if r < 0.6 else v[: len(v) // 2] + a + v[len(v) // 2:]
+    for row in form.get("survey", []):
+        for k in list(row):
+            if k.split("::")[0] in TEXT_COLS and "${" not in row[k] and rng.random() < p:
+                row[k] = mix(row[k])
+        for k in list(row):
+            if k.startswith(CUSTOM_COLS) and rng.random() < p:
+                row[k] = mix(row[k])
+    for row in form.get("choices") or []:
+        for k in list(row):
+            if (k.split("::")[0] == "label" or not CHOICE_STD.match(k)) and rng.random() < p:
+                row[k] = mix(row[k])
+    st = settings_row(form)
+    for k in list(st):
+        if (k in ("form_title", "version", "style", "instance_xmlns", "public_key", "submission_url") or k.startswith("attribute::")) and rng.random() < p:
+            st[k] = mix(st[k])
+    return form
 
 
 def expected_form_id(form, fallback="data"):
@@ -332,7 +345,153 @@ def general_form(rng: random.Random, big=False) -> dict:
         form["settings"] = [st]
     if rng.random() < 0.08:
         form["entities"] = [{"dataset": rng.choice(["trees", "people"]), "label": "'x'"}]
+    if rng.random() < 0.6:
+        inject_entities(rng, form)
     return form
+
+
+# ------------------------------------------------------------------ name probes
+
+# XML 1.0 (5th ed.) NameStartChar / NameChar ranges
+NAME_START_RANGES = [
+    (0x3A, 0x3A), (0x41, 0x5A), (0x5F, 0x5F), (0x61, 0x7A), (0xC0, 0xD6), (0xD8, 0xF6), (0xF8, 0x2FF), (0x370, 0x37D),
+    (0x37F, 0x1FFF), (0x200C, 0x200D), (0x2070, 0x218F), (0x2C00, 0x2FEF), (0x3001, 0xD7FF), (0xF900, 0xFDCF),
+    (0xFDF0, 0xFFFD), (0x10000, 0xEFFFF),
+]
+NAME_EXTRA_RANGES = [(0x2D, 0x2E), (0x30, 0x39), (0xB7, 0xB7), (0x300, 0x36F), (0x203F, 0x2040)]
+
+
+def boundary_chars():
+    """both ends of every NameStartChar / NameChar range, the code points just outside them (the
+    holes U+00D7, U+00F7, U+037E, U+0300-036F as a start, …) and a few interior points"""
+    pts = set()
+    for lo, hi in NAME_START_RANGES + NAME_EXTRA_RANGES:
+        pts.update({lo - 1, lo, lo + 1, hi - 1, hi, hi + 1, (lo + hi) // 2})
+    pts.update({0x20, 0x21, 0x22, 0x26, 0x27, 0x3C, 0x3E, 0x2F, 0x40, 0x5B, 0x5D, 0x60, 0x7B, 0x7F, 0xA0, 0xAA, 0xB5, 0xBA,
+                0x2000, 0x2028, 0x3000, 0xFEFF, 0xFFFE, 0xFFFF, 0xF0000, 0x10FFFF})
+    return sorted(chr(p) for p in pts if 0x20 <= p <= 0x10FFFF and not (0xD800 <= p <= 0xDFFF))
+
+
+BOUNDARY = boundary_chars()
+
+
+def probe_name(rng):
+    c = rng.choice(BOUNDARY)
+    r = rng.random()
+    if r < 0.05:
+        return rng.choice([TYPO_LIT, "a" + TYPO_LIT, TYPO_LIT + "b", "q" + TYPO_LIT + "z", TYPO_LIT[:3], TYPO_LIT[1:]])
+    shape = rng.choice(["a{}", "{}a", "{}", "a{}b", "a{}{}", "_{}1", "a.{}", "a-{}"])
+    return shape.format(c, rng.choice(BOUNDARY)) if shape.count("{}") == 2 else shape.format(c)
+
+
+def name_probe_form(rng: random.Random) -> dict:
+    """a small form in which one user-supplied XML name sits at a boundary of the XML name
+    character classes; most are (rightly) rejected, whatever is accepted must be well-formed"""
+    n = probe_name(rng)
+    where = rng.choice(["question", "question", "group", "repeat", "form_name", "bind", "instance", "body", "choice_col",
+                        "ns_prefix", "attribute", "prefixed_q", "list_name", "choice_name"])
+    form = {"survey": [{"type": "text", "name": "q0", "label": "L"}]}
+    sv = form["survey"]
+    if where == "question":
+        sv.append({"type": rng.choice(["text", "integer", "note", "calculate"]), "name": n, "label": "N", "calculation": "1"})
+        if rng.random() < 0.5:
+            sv.append({"type": "note", "name": "r", "label": "see ${" + n + "}"})
+    elif where in ("group", "repeat"):
+        sv += [{"type": "begin " + where, "name": n, "label": "G"}, {"type": "text", "name": "in", "label": "I"}, {"type": "end " + where}]
+    elif where == "form_name":
+        form["settings"] = [{"name": n}]
+    elif where in ("bind", "instance", "body"):
+        sv[0][where + "::" + n] = "v"
+    elif where == "choice_col":
+        sv.append({"type": "select_one l", "name": "s", "label": "S"})
+        form["choices"] = [{"list_name": "l", "name": "a", "label": "A", n: "v"}]
+    elif where == "ns_prefix":
+        form["settings"] = [{"namespaces": n + "=http://x.example/ns"}]
+        sv[0]["bind::" + n + ":k"] = "v"
+    elif where == "attribute":
+        form["settings"] = [{"attribute::" + n: "v"}]
+    elif where == "prefixed_q":
+        form["settings"] = [{"namespaces": "p=http://x.example/ns"}]
+        sv.append({"type": "text", "name": rng.choice(["p:" + n, n + ":x"]), "label": "N"})
+    elif where == "list_name":
+        sv.append({"type": "select_one " + n, "name": "s", "label": "S"})
+        form["choices"] = [{"list_name": n, "name": "a", "label": "A"}]
+    elif where == "choice_name":
+        sv.append({"type": "select_multiple l", "name": "s", "label": "S"})
+        form["choices"] = [{"list_name": "l", "name": n, "label": "A"}, {"list_name": "l", "name": "b", "label": "B"}]
+    return form
+
+
+# ------------------------------------------------------------------ random DOM trees for validate_xml_document
+
+
+def dom_name(rng, prefixes):
+    r = rng.random()
+    if r < 0.45:
+        base = rng.choice(["a", "label", "q1", "Geo-M.x", "é", "_u", "x·", "à"])
+    elif r < 0.9:
+        base = probe_name(rng)
+    else:
+        base = rng.choice(["", ":", "a:", ":a", "a:b:c", "1a", "a b", "a<b", TYPO_LIT])
+    if rng.random() < 0.3:
+        return rng.choice(prefixes + ["xml", "xmlns", "nope", "h"]) + ":" + base
+    return base
+
+
+def dom_value(rng):
+    r = rng.random()
+    if r < 0.93:
+        return gen.adv_text(rng, 3, plain=False)
+    return gen.adv_text(rng, 2, plain=False) + rng.choice(CTRL + ["\t", "\n", "\r", "\x7f", "\x85", "\ud7ff", "\ue000", "\ufffd"])
+
+
+def random_named_tree(rng, depth=0, prefixes=None):
+    """DOM tree (driver encoding) whose tags / attribute names / namespace declarations / values probe
+    what validate_xml_document has to decide; attribute local names are kept distinct so that the
+    DOM built by setAttribute has exactly these attributes"""
+    prefixes = list(prefixes or [])
+    attrs, locals_ = [], set()
+    def add(k, v):
+        loc = k.split(":", 1)[-1]
+        if loc not in locals_ and all(k != a[0] for a in attrs):
+            locals_.add(loc)
+            attrs.append([k, v])
+    for _ in range(rng.choice([0, 0, 1, 1, 2])):
+        p = rng.choice(["p", "q", "esri", "p", "q", "e-1", "xml", "xmlns", "é", "1x", probe_name(rng), ""])
+        v = rng.choice(["http://x", "urn:y", "http://x", "urn:y", "a b", "", dom_value(rng), "http://www.w3.org/2000/xmlns/"])
+        add("xmlns:" + p, v)
+        if v and p not in ("xml", "xmlns"):
+            prefixes.append(p)
+    for _ in range(rng.choice([0, 1, 1, 2, 3])):
+        add(dom_name(rng, prefixes), dom_value(rng))
+    kids = []
+    shape = rng.choice(["empty", "text", "elems", "elems", "mixed"]) if depth < 2 else rng.choice(["empty", "text"])
+    if shape == "text":
+        kids.append({"x": dom_value(rng), "stock": False})
+    elif shape in ("elems", "mixed"):
+        for _ in range(rng.randint(1, 3)):
+            kids.append(random_named_tree(rng, depth + 1, prefixes))
+        if shape == "mixed":
+            kids.insert(rng.randint(0, len(kids)), {"x": dom_value(rng), "stock": rng.random() < 0.3})
+    return {"t": dom_name(rng, prefixes), "a": attrs, "k": kids}
+
+
+def tree_tags(tree):
+    if "x" in tree:
+        return []
+    out = [tree["t"]]
+    for k in tree["k"]:
+        out += tree_tags(k)
+    return out
+
+
+def tree_names(tree):
+    if "x" in tree:
+        return []
+    out = [tree["t"]] + [a[0] for a in tree["a"]]
+    for k in tree["k"]:
+        out += tree_names(k)
+    return out
 
 
 # ------------------------------------------------------------------ directed stream (known shapes)
@@ -387,6 +546,25 @@ def directed(rng: random.Random, cls: str) -> dict:
             form.setdefault("settings", [{}])[0]["name"] = u
         else:
             form["survey"].append({"type": rng.choice(["text", "integer", "note"]), "name": u.lower() if u != "H:title" else "zz:q", "label": "L"})
+    elif cls == "F3x":
+        n = "xmlns:" + rng.choice(["q", "a-b", "é1"])
+        if rng.random() < 0.8:
+            form["survey"].append({"type": rng.choice(["text", "integer", "note"]), "name": n, "label": "L"})
+        else:
+            form.setdefault("settings", [{}])[0]["name"] = n
+    elif cls == "F5":
+        n = rng.choice([TYPO_LIT, "a" + TYPO_LIT, TYPO_LIT + "b", "q" + TYPO_LIT + "z"])
+        r = rng.random()
+        if r < 0.5:
+            form["survey"].append({"type": rng.choice(["text", "integer", "note"]), "name": n, "label": "L"})
+        elif r < 0.7:
+            rng.choice(rows)[rng.choice(CUSTOM_COLS[:3]) + n] = "v"
+        elif r < 0.85:
+            _with_select(rng, form)
+            for c in form["choices"]:
+                c[n] = "v"
+        else:
+            form.setdefault("settings", [{}])[0]["name"] = n
     elif cls == "F4":
         c = rng.choice(CTRL)
         r = rng.random()
